@@ -11,7 +11,7 @@
 EXTENDS Naturals, Sequences, FiniteSets
 
 CONSTANTS Schema, Fragments
-X == INSTANCE Execution WITH World <- <<>>
+X == INSTANCE Execution WITH World <- <<>>, VarValues <- <<>>     \* the generated operations use no variables
 
 PossibleObjects(n) ==
   LET d == Schema.types[n] IN
